@@ -319,7 +319,36 @@ def run_eval(c):
     if why:
         mutated.append("POMDP definition object changed: " + why)
     out["mutated"] = mutated
+    if c.get("fsc_edit"):
+        # the SAME object after its strategy tables were edited in place (its own attributes; whether they alias the
+        # caller's arrays or are copies does not matter): histories must follow the tables it holds now
+        try:
+            f2 = c["fsc_edit"]
+            try:
+                ctrl.action_strategy[...] = _asform(ctrl.action_strategy, nd(f2["pi"]))
+                ctrl.observation_strategy[...] = _asform(ctrl.observation_strategy, nd(f2["om"]))
+                ctrl.initial_state_dist[...] = _asform(ctrl.initial_state_dist, nd(f2["init"]))
+            except (ValueError, TypeError, RuntimeError) as e:
+                out["edit"] = {"error": "tables not editable in place: " + type(e).__name__}      # read-only tables: nothing to judge
+            else:
+                h2 = {}
+                for L in (1, 2):
+                    h2[str(L)] = [hist_prob(ctrl, h) for h in itertools.product(steps, repeat=L)]
+                out["edit"] = {"done": True, "hist": h2, "pi": fjn(ctrl.action_strategy), "om": fjn(ctrl.observation_strategy),
+                               "init": fjn(ctrl.initial_state_dist)}
+        except BaseException as e:
+            if isinstance(e, (KeyboardInterrupt, SystemExit)):
+                raise
+            out["edit"] = {"raised": type(e).__name__ + ": " + str(e)[:300]}
     return out
+
+
+def _asform(target, arr):
+    """arr in the container form of target (tensor or array)"""
+    if hasattr(target, "detach"):
+        import torch
+        return torch.tensor(arr, dtype=target.dtype)
+    return arr
 
 
 def run_bpi(c):
